@@ -287,6 +287,10 @@ func decodeStructValueSlice(field reflect.Value, fieldType reflect.StructField, 
 		strip = it
 	}
 
+	/* The list is what this field says, not what the target held before
+	 * (a struct may be decoded into more than once) */
+	field.Set(reflect.Zero(field.Type()))
+
 	value = strings.Trim(value, strip)
 	if value == "" {
 		/* An empty field is an empty list, not a list of one empty element */
